@@ -18,7 +18,7 @@ def plan(quick, seed):
             ("bunt", dict(seed=seed + 5, n=20 if quick else 200, len=14, safe=True))]
 
 
-def run(res):
+def run_core(res):
     quick = res.tier == "quick"
     res.cov["trusted_base"] = vlib.TRUSTED_BASE_COMMON + [
         "ASSUMED, not modelled: a completed badger/buntdb transaction is durable and a batch is all-or-nothing; what the source contributes to that "
@@ -41,8 +41,17 @@ def run(res):
         res.violation(dict(kind="obligation", broken=what), False, what[:300])
 
 
+def run(res):
+    run_core(res)
+    # what comes back after a restart is loaded by the queue (LoadFromMsgStorage, the swap threshold): the queue component
+    vlib.also_run(res, "C19", why="queue/queue.go's reload from the message store is among C04's anchors")
+
+
 def replay(path):
     r = json.load(open(path))
+    if r.get("kind") == "queueswap-case":
+        import C19
+        return C19.replay(path)
     if r.get("kind") == "msg-ops":
         return sl.replay_msg(r)
     print(json.dumps(r, indent=1))
